@@ -13,7 +13,7 @@ use std::rc::Rc;
 use serde_json::json;
 
 use rs_matter::cert::gen::Validity;
-use rs_matter::crypto::Crypto;
+use rs_matter::crypto::{Crypto, SecretKey, SigningSecretKey};
 use rs_matter::error::{Error, ErrorCode};
 use rs_matter::respond::Responder;
 use rs_matter::sc::case::CaseInitiator;
@@ -55,6 +55,9 @@ pub enum CredDefect {
     IcacSignatureBit,
     /// ICAC replaced by an ICAC of another root.
     ForeignIcac,
+    /// The NOC was issued (signed) by another, genuine NOC of the fabric, which is presented
+    /// in the ICAC position: a fabric member minting identities (chain without ICAC only).
+    NocIssuedByNoc,
 }
 
 pub const CRED_DEFECTS: &[CredDefect] = &[
@@ -66,6 +69,7 @@ pub const CRED_DEFECTS: &[CredDefect] = &[
     CredDefect::NocSignatureBit,
     CredDefect::IcacSignatureBit,
     CredDefect::ForeignIcac,
+    CredDefect::NocIssuedByNoc,
 ];
 
 #[derive(Clone, Debug)]
@@ -216,6 +220,59 @@ fn make_creds<C: Crypto>(
             let other = FabricCa::new(crypto, rng, ca.fabric_id, true)?;
             let creds = ca.mint(crypto, node_id, cats)?;
             Ok((other.icac.clone(), creds))
+        }
+        CredDefect::NocIssuedByNoc => {
+            use crate::mon::c19_certgen as cg;
+            // A genuine member (some other node id, NOC issued by the root) ...
+            let member_node = node_id ^ 0x5A5A;
+            let member = ca.mint(crypto, member_node, &[])?;
+            let member_key = cg::key_from_secret(crypto, member.key.reference());
+            // ... signs a NOC for `node_id` with its own NOC key, naming itself as issuer
+            let key2 = cg::gen_key(crypto);
+            let mut subject = vec![
+                cg::DnAttr::u(cg::DN_NODE_ID, node_id),
+                cg::DnAttr::u(cg::DN_FABRIC_ID, ca.fabric_id),
+            ];
+            for c in cats {
+                subject.push(cg::DnAttr::u(cg::DN_NOC_CAT, *c as u64));
+            }
+            let params = cg::CertParams {
+                serial: vec![0x42],
+                sig_algo: 1,
+                issuer: vec![
+                    cg::DnAttr::u(cg::DN_NODE_ID, member_node),
+                    cg::DnAttr::u(cg::DN_FABRIC_ID, ca.fabric_id),
+                ],
+                not_before: 1,
+                not_after: 0,
+                subject,
+                pubkey_algo: 1,
+                curve: 1,
+                pubkey: key2.pk.to_vec(),
+                bc: Some((false, None)),
+                ku: Some(cg::KU_DIGITAL_SIGNATURE),
+                eku: Some(vec![cg::EKU_CLIENT_AUTH, cg::EKU_SERVER_AUTH]),
+                skid: Some(key2.kid.to_vec()),
+                akid: Some(member_key.kid.to_vec()),
+                future: None,
+                omit: vec![],
+            };
+            let (noc, tbs_ok) = cg::build_cert(crypto, &params, &params, &member_key, None, rng)
+                .map_err(|_| Error::from(ErrorCode::Invalid))?;
+            if !tbs_ok {
+                return Err(ErrorCode::Invalid.into());
+            }
+            let mut key = rs_matter::crypto::CanonPkcSecretKey::new();
+            key.load_from_array(&key2.sk);
+            Ok((
+                member.noc.clone(),
+                NodeCreds {
+                    node_id,
+                    cats: cats.to_vec(),
+                    noc,
+                    key,
+                },
+            ))
         }
     }
 }
@@ -649,7 +706,8 @@ pub fn gen_params(rng: &mut Rng, idx: u64) -> Params {
                     p.defect,
                     CredDefect::IcacSignatureBit | CredDefect::ForeignIcac
                 );
-                if !needs_icac || p.with_icac {
+                let needs_direct = matches!(p.defect, CredDefect::NocIssuedByNoc);
+                if (!needs_icac || p.with_icac) && (!needs_direct || !p.with_icac) {
                     break;
                 }
             }
